@@ -374,6 +374,19 @@ def contradiction_programs(draw):
         prog.append(["ad", [[draw(st.sampled_from(probs[:3])), [f, []]] for f in "abc"], []])
     names = ["a", "b", "c"]
     for d in ("d1", "d2", "d3")[:draw(st.integers(1, 3))]:
+        if draw(st.integers(0, 2)) == 0:
+            # a tautology that is not syntactically constant: d :- x, y.  d :- \\+x.  d :- \\+y.   (or d :- x. d :- \\+x.)
+            x = draw(st.sampled_from(names))
+            y = draw(st.sampled_from(names))
+            if x == y or draw(st.booleans()):
+                prog.append(["rule", [d, []], [[False, x, []]]])
+                prog.append(["rule", [d, []], [[True, x, []]]])
+            else:
+                prog.append(["rule", [d, []], [[False, x, []], [False, y, []]]])
+                prog.append(["rule", [d, []], [[True, x, []]]])
+                prog.append(["rule", [d, []], [[True, y, []]]])
+            names.append(d)
+            continue
         for _ in range(draw(st.integers(1, 2))):
             body = []
             for _ in range(draw(st.integers(2, 3))):
@@ -405,8 +418,8 @@ def render(case):
 KNOWN_CLASSES = {}
 
 SUBCHECKS = [
-    SubCheck("compile", check, strategy=_strategy, budget={"quick": 1000, "thorough": 40000},
+    SubCheck("compile", check, strategy=_strategy, budget={"quick": 850, "thorough": 40000},
              timeout={"quick": 6, "thorough": 30}, render=render),
-    SubCheck("absent_literals", check, strategy=_strategy_small, budget={"quick": 300, "thorough": 8000},
+    SubCheck("absent_literals", check, strategy=_strategy_small, budget={"quick": 450, "thorough": 8000},
              timeout={"quick": 6, "thorough": 30}, render=render),
 ]
